@@ -164,6 +164,9 @@ def run(ctx):
     ctx.ob("C28.R2", E + ":ConstantExpressionEvaluator.eval_binop", "non-numeric operands (addresses) are a diagnostic, not TypeError", any("isinstance" in norm(g) for g in guards), construct="operand-guard")
 
     _literal_range(ctx)
+    from ..report import Sub
+    from . import c27
+    c27.run(Sub(ctx, "C27", only=["C27.R3"]))   # an unconverted constant ends in struct.error when it is packed
 
 
 def _literal_range(ctx):
